@@ -5,8 +5,8 @@
    Arithmetic.  usize operations on numbers that come straight from the view tree (container
    margins and sizes, alignment offsets, layout positions) are modelled as coded: saturating
    where the code saturates, checked (Panic) where it subtracts, divides or clamps with
-   min > max.  Sums of child extents (flex offsets, frame +2) are taken in unbounded N: they
-   exceed 2^64 only for extents no terminal has (stated as an assumption in design/C10.md). *)
+   min > max.  Sums of extents (flex accounting and offsets, frame border, ranges in flex_render
+   and FindPath) saturate at usize::MAX, as the code does since the repairs. *)
 From Coq Require Import List Arith Bool NArith ZArith.
 From SNT Require Import Base.Outcome Surface.Bounds Surface.Shape Render.CellLayout Render.Writer.
 Import ListNotations.
@@ -45,13 +45,16 @@ Inductive vtree :=
 | VUnit                                                           (* () *)
 | VImage (id ph pw : N)                                           (* pixel height / width *)
 | VGlyph (id : N) (gh gw : nat) (fb : list N)
-| VProbe (id ph pw : N).                                          (* harness leaf: clamps its preferred size, paints
+| VProbe (id ph pw : N)                                           (* harness leaf: clamps its preferred size, paints
                                                                     its whole surface with its mark, records the shape *)
+| VSurface (h w : N) (c : ccell)                                  (* SurfaceView<Cell> of an h x w surface filled with c *)
+| VImageAscii (ih iw color : N)                                   (* ImageAsciiView of an ih x iw image of one colour *)
+| VRef (target : option vtree).                                   (* JSON "ref" (ViewCached): the cached view, if any *)
 
 Definition fchild : Type := (vtree * option positive * option face * align)%type.
 
 (* Layout: position, size, attached data (what the model needs of it) *)
-Inductive ldata := DNone | DTag (t : N) | DCt (c : ct).
+Inductive ldata := DNone | DTag (t : N) | DCt (c : ct) | DRef.
 Inductive ltree := LNode (r c h w : N) (data : ldata) (kids : list ltree).
 
 Definition l_row (t : ltree) : N := match t with LNode r _ _ _ _ _ => r end.
@@ -105,9 +108,16 @@ Definition align_eqb (a b : align) : bool :=
 (* ---------- leaves ---------- *)
 Definition str_cells (chars : list N) : list ccell := map (fun ch => mkCell face0 (KChar ch)) chars.
 
-(* Text::layout / str::layout: measured with max.width, then clamped *)
+(* no run over these cells ever moves the cursor further right than this, whatever the width *)
+Definition text_bound (vc : vctx) (cells : list ccell) : nat :=
+  fold_right (fun c a => match classify (v_r vc) (c_kind c) with LSized _ w => w + a | LTab => 8 + a | _ => a end)%nat
+             0%nat (expand (v_r vc) cells).
+
+(* Text::layout / str::layout: measured with max.width, then clamped.  The available width enters
+   the measuring run capped by text_bound: LayoutProofs.text_size_cap shows that this is the size
+   measured with max.width itself (the cap only keeps the unary numbers of the run small). *)
 Definition text_layout_v (vc : vctx) (cells : list ccell) (wraps : bool) (c : ct) : outcome ltree :=
-  let '(h, w) := text_size (v_r vc) cells wraps (N.to_nat (c_maxw c)) in
+  let '(h, w) := text_size (v_r vc) cells wraps (N.to_nat (N.min (c_maxw c) (N.of_nat (text_bound vc cells)))) in
   leaf_clamped c (N.of_nat h) (N.of_nat w).
 
 (* Image::size_cells *)
@@ -138,13 +148,14 @@ Definition flex_pass1 (d : axis) (cl : ct) (acc : outcome fl1) (ch : lchild) : o
   match fl with
   | None =>
       let* t := lay cl in
-      Ok (mkFl1 (f1_trees a ++ [t]) (f1_nonflex a + major d (l_hh t) (l_ww t))
+      Ok (mkFl1 (f1_trees a ++ [t]) (sat_addN (f1_nonflex a) (major d (l_hh t) (l_ww t)))
                 (N.max (f1_minor a) (minor d (l_hh t) (l_ww t))) (f1_total a))
   | Some f => Ok (mkFl1 (f1_trees a ++ [lnode0]) (f1_nonflex a) (f1_minor a) (f1_total a + Npos f))
   end.
 
-(* ((major_remain as f64) * flex / flex_total).round() as usize, for positive operands *)
-Definition flex_share (remain f total : N) : N := (2 * remain * f + total) / (2 * total).
+(* (((major_remain as f64) * flex / flex_total).round() as usize).min(major_remain), for factors
+   whose f64 arithmetic is exact (positive numerators over a common power-of-two denominator) *)
+Definition flex_share (remain f total : N) : N := N.min ((2 * remain * f + total) / (2 * total)) remain.
 
 Record fl2 := mkFl2 { f2_trees : list ltree; f2_remain : N; f2_flex : N; f2_minor : N; f2_total : N }.
 
@@ -163,7 +174,7 @@ Definition flex_pass2 (d : axis) (cl : ct) (acc : outcome fl2) (cht : lchild * l
           let* t := lay (axis_ct d cl 0 cmax) in
           let mj := major d (l_hh t) (l_ww t) in
           (* fix: saturating_sub; a child may exceed its share (Frame, ScrollBar) *)
-          Ok (mkFl2 (f2_trees a ++ [t]) (f2_remain a - mj) (f2_flex a + mj)
+          Ok (mkFl2 (f2_trees a ++ [t]) (f2_remain a - mj) (sat_addN (f2_flex a) mj)
                     (N.max (f2_minor a) (minor d (l_hh t) (l_ww t))) total')
   end.
 
@@ -185,7 +196,7 @@ Definition flex_place (d : axis) (mn between : N) (acc : list ltree * N) (cht : 
   let '(done, off) := acc in
   let '((_, _, al), t) := cht in
   let '(r, c) := from_axes d off (align_pos al (minor d (l_hh t) (l_ww t)) mn) in
-  (done ++ [set_pos t r c], off + major d (l_hh t) (l_ww t) + between).
+  (done ++ [set_pos t r c], sat_addN (sat_addN off (major d (l_hh t) (l_ww t))) between).
 
 Definition flex_layout (d : axis) (j : justify) (c : ct) (cs : list lchild) : outcome ltree :=
   let cl := ct_loosen c in
@@ -195,7 +206,7 @@ Definition flex_layout (d : axis) (j : justify) (c : ct) (cs : list lchild) : ou
     if (0 <? remain) && (0 <? f1_total p1) then
       fold_left (flex_pass2 d cl) (combine cs (f1_trees p1)) (Ok (mkFl2 [] remain 0 (f1_minor p1) (f1_total p1)))
     else Ok (mkFl2 (f1_trees p1) remain 0 (f1_minor p1) (f1_total p1)) in
-  let unused := major d (c_maxh c) (c_maxw c) - (f1_nonflex p1 + f2_flex p2) in
+  let unused := major d (c_maxh c) (c_maxw c) - sat_addN (f1_nonflex p1) (f2_flex p2) in
   let* sp := flex_spaces j unused (N.of_nat (length cs)) in
   let '(placed, off) := fold_left (flex_place d (f2_minor p2) (snd sp)) (combine cs (f2_trees p2)) ([], fst sp) in
   let '(h, w) := from_axes d off (f2_minor p2) in
@@ -231,7 +242,7 @@ Fixpoint layout (vc : vctx) (v : vtree) (c : ct) {struct v} : outcome ltree :=
       if has_glyphs (v_r vc) then
         let c' := mkCt (c_minh c - 2) (c_minw c - 2) (c_maxh c - 2) (c_maxw c - 2) in
         let* t := layout vc child c' in
-        Ok (LNode 0 0 (l_hh t + 2) (l_ww t + 2) DNone [set_pos t 1 1])
+        Ok (LNode 0 0 (sat_addN (l_hh t) 2) (sat_addN (l_ww t) 2) DNone [set_pos t 1 1])
       else layout vc child c
   | VScrollBar d _ _ _ _ =>
       let mj := major d (c_maxh c) (c_maxw c) in
@@ -254,6 +265,13 @@ Fixpoint layout (vc : vctx) (v : vtree) (c : ct) {struct v} : outcome ltree :=
       if has_glyphs (v_r vc) then leaf_clamped c (N.of_nat gh) (N.of_nat gw)
       else text_layout_v vc (str_cells fb) true c
   | VProbe _ ph pw => leaf_clamped c ph pw
+  | VSurface h w _ => leaf_clamped c h w
+  | VImageAscii ih iw _ => leaf_clamped c (ih / 2 + ih mod 2) iw
+  | VRef None => Ok lnode0            (* the layout node is left as it was created *)
+  | VRef (Some v') =>
+      (* as repaired: the cached view gets a child node *)
+      let* t := layout vc v' c in
+      Ok (LNode 0 0 (l_hh t) (l_ww t) DRef [t])
   end.
 
 (* ---------- rendering ---------- *)
@@ -302,9 +320,15 @@ Definition frame_cell (color : N) (w h c r : nat) (old : ccell) : ccell :=
 Definition round_div (a b : N) : N := (2 * a + b) / (2 * b).   (* round half up of a / b, b > 0 *)
 
 Definition scroll_thumb (mj off_num vis_num den : N) : N * N :=
-  (* size = (major * visible).clamp(1, major).round() ; offset = ((major - size) * offset).round() *)
-  let size := if mj * vis_num <? den then 1 else if den * mj <? mj * vis_num then mj else round_div (mj * vis_num) den in
-  (size, round_div ((mj - size) * off_num) den).
+  (* size = (major * visible).clamp(1, major).round() ; offset = ((major - size) * offset).round(),
+     both cast with `as usize` (NaN -> 0, +inf -> usize::MAX).  den = 0 is
+     ScrollBarPosition::from_counts with total = 0: the fractions are NaN (0/0) or +inf (n/0). *)
+  if den =? 0 then
+    let size := if vis_num =? 0 then 0 else mj in
+    (size, if (off_num =? 0) || (mj - size =? 0) then 0 else UMAX)
+  else
+    let size := if mj * vis_num <? den then 1 else if den * mj <? mj * vis_num then mj else round_div (mj * vis_num) den in
+    (size, round_div ((mj - size) * off_num) den).
 
 Definition rchild : Type := ((ltree -> shape -> rst -> outcome rst) * option face)%type.
 
@@ -320,8 +344,8 @@ Definition flex_render_step (d : axis) (sub : shape) (acc : outcome rst) (ct' : 
           let area :=
             match d with
             | Hor => Shape.view sub (resolve (sh_height sub) Full)
-                              (resolve (sh_width sub) (Rng (Z.of_N (l_col t)) (Z.of_N (l_col t + l_ww t))))
-            | Ver => Shape.view sub (resolve (sh_height sub) (Rng (Z.of_N (l_row t)) (Z.of_N (l_row t + l_hh t))))
+                              (resolve (sh_width sub) (Rng (Z.of_N (l_col t)) (Z.of_N (sat_addN (l_col t) (l_ww t)))))
+            | Ver => Shape.view sub (resolve (sh_height sub) (Rng (Z.of_N (l_row t)) (Z.of_N (sat_addN (l_row t) (l_hh t)))))
                               (resolve (sh_width sub) Full)
             end in
           let* d' := erase area (r_data s) f in Ok (mkR d' (r_log s))
@@ -363,9 +387,13 @@ Fixpoint render (vc : vctx) (v : vtree) (t : ltree) (sh : shape) (s : rst) {stru
         let '(size, offset) := scroll_thumb mj off_num vis_num den in
         let fg := mkCell (mkFace None (f_fg fc) 0) (KChar 32) in
         let bg := mkCell (mkFace None (f_bg fc) 0) (KChar 32) in
-        let cells := map (fun i => if (N.of_nat i <? offset) || (offset + size <=? N.of_nat i) then bg else fg)
-                         (seq 0 (N.to_nat mj)) in
-        let* d := write_cells vc (apply_to sh t) (r_data s) true cells in Ok (mkR d (r_log s))
+        (* the loop over 0..major stops at the first put that reports "out of space"; the cells are
+           one column wide, so no more than area + 1 of them are ever put *)
+        let sub := apply_to sh t in
+        let n := N.min mj (N.of_nat (sh_height sub * sh_width sub + 1)) in
+        let cells := map (fun i => if (N.of_nat i <? offset) || (sat_addN offset size <=? N.of_nat i) then bg else fg)
+                         (seq 0 (N.to_nat n)) in
+        let* d := write_cells vc sub (r_data s) true cells in Ok (mkR d (r_log s))
   | VTag _ child =>
       let sub := apply_to sh t in
       match l_kids t with
@@ -409,6 +437,29 @@ Fixpoint render (vc : vctx) (v : vtree) (t : ltree) (sh : shape) (s : rst) {stru
       let sub := apply_to sh t in
       let* d := fill_cells sub (r_data s) (mkCell face0 (KChar (61440 + id))) in
       Ok (mkR d (r_log s ++ [(id, sub)]))
+  | VSurface h w c =>
+      (* dst.view_mut(..height, ..width).fill_with(|pos, dst| dst.overlay(src[pos])) *)
+      let sub := apply_to sh t in
+      let hh := N.min (N.of_nat (sh_height sub)) h in
+      let ww := N.min (N.of_nat (sh_width sub)) w in
+      let area := Shape.view sub (resolve (sh_height sub) (To (Z.of_N hh))) (resolve (sh_width sub) (To (Z.of_N ww))) in
+      let* d := of_opt 1013 (fill_with area (r_data s) (fun _ _ old => cell_overlay old c)) in
+      Ok (mkR d (r_log s))
+  | VImageAscii ih iw color =>
+      let sub := apply_to sh t in
+      let px := fun (r c : nat) => if (N.of_nat r <? ih)%N && (N.of_nat c <? iw)%N then Some color else None in
+      let* d := of_opt 1014 (fill_with sub (r_data s)
+                               (fun r c _ => mkCell (mkFace (px (2 * r)%nat c) (px (2 * r + 1)%nat c) 0) (KChar 9600))) in
+      Ok (mkR d (r_log s))
+  | VRef None => Ok s
+  | VRef (Some v') =>
+      match l_data t with
+      | DRef => match l_kids t with
+                | k :: _ => render vc v' k (apply_to sh t) s
+                | [] => Err 1
+                end
+      | _ => Ok s
+      end
   end.
 
 (* ---------- FindPath (src/view/layout.rs:230-260) ---------- *)
@@ -418,7 +469,7 @@ Fixpoint find_child (kids : list ltree) (i : nat) (r c : N) : option (nat * ltre
   match kids with
   | [] => None
   | k :: rest =>
-      if (l_col k <=? c) && (c <? l_col k + l_ww k) && (l_row k <=? r) && (r <? l_row k + l_hh k)
+      if (l_col k <=? c) && (c <? sat_addN (l_col k) (l_ww k)) && (l_row k <=? r) && (r <? sat_addN (l_row k) (l_hh k))
       then Some (i, k) else find_child rest (S i) r c
   end.
 
